@@ -2,6 +2,7 @@
 The property of each commit is looked up by a keyword of its subject."""
 import json, subprocess
 MAP = [
+    ('temporary identifiers was refused', 'C12'),
     ('LogLogit.get_value returns -inf', 'C01'), ('PowerConstant.get_value', 'C01'), ('simulate used the identifiers', 'C01'),
     ('temporary identifiers', 'C01'), ('created by create_function', 'C01'),
     ('unique_entry', 'C02'),
@@ -10,7 +11,7 @@ MAP = [
     ('scipy wrapper failed', 'C07'),
     ('bootstrap p-value', 'C08'), ('compile_estimation_results', 'C08'), ('single parameter failed', 'C08'), ('processed again after their Hessian', 'C08'),
     ('count_number_of_groups', 'C09'), ('before the map of individuals was rebuilt', 'C09'), ('draws were generated for the old number of individuals', 'C09'),
-    ('declared with two different types', 'C10'),
+    ('declared with two different types', 'C10'), ('stored identifiers (prepare_ids=False)', 'C10'), ('read the draws generated later', 'C10'),
     ('NORMAL_HALTON3', 'C11'),
     ('ComparisonOperator.audit', 'C12'), ('MultipleExpression.audit', 'C12'), ('Variable absent from the database', 'C12'),
     ('draws outside MonteCarlo', 'C12'), ('pandas extension types', 'C12'), ('database emptied', 'C12'), ('selected member of a catalog', 'C12'),
@@ -23,7 +24,7 @@ MAP = [
     ('normalpdf and uniformpdf', 'C17'),
     ('MDCEV', 'C18'),
     ('sampled cross-nested logit', 'C19'), ('lists an alternative twice', 'C19'),
-    ('@deprecated called', 'C20'), ('descriptionOfNativeDraws', 'C20'), ('logcnl_avail', 'C20'),
+    ('@deprecated called', 'C20'), ('central controller of a formula', 'C16'), ('controllers bearing the same name', 'C16'), ('descriptionOfNativeDraws', 'C20'), ('logcnl_avail', 'C20'),
 ]
 log = subprocess.run(['git', '-C', '/repo', 'log', '--format=%h %s', '7e16da8..HEAD'], capture_output=True, text=True).stdout.splitlines()
 fixed, unknown = [], []
